@@ -395,6 +395,13 @@ def run(ctx):
                             'every path from the entry of %s to a return passes the search (or returns because the collection is empty, or on a decided comparison with an end element)' % m, props, fn.line)
                     continue
                 probs = [x for f in prog.closure(fn) if not f.is_closure for x in must.problems.get(f.path, [])]
+                if not probs and not is_tree and not must.searching:
+                    # a sorted vector answers (and places new elements) by binary search; an operation with a search role that
+                    # reaches none decides its answer / the position some other way, which no table of LISTSEARCH covers
+                    ctx.add(RULE, fn, 'searches-on-every-path', 'violation',
+                            '%s (%s) of the sorted-vector variant reaches no binary search of its buffer: %s is not decided by a search (undecided)' % (
+                                m, role, 'the position of the new element' if role == 'INSERT' else 'the answer'), props, fn.line)
+                    continue
                 if not probs:
                     # DESCENT / LISTSEARCH report a role method that reaches no search (anchor); nothing to add here
                     ctx.add(RULE, fn, 'searches-on-every-path', 'info', '%s reaches no search construct of its own type on all paths of a helper (left to the DESCENT / LISTSEARCH anchors)' % m, props, fn.line, nontrivial=False)
